@@ -2,6 +2,7 @@ package c06
 
 import (
 	"fmt"
+	feepkg "github.com/idena-network/idena-go/blockchain/fee"
 	"math/big"
 	"testing"
 
@@ -75,6 +76,50 @@ func TestNoReplay(t *testing.T) {
 				bodies := [][]*types.Transaction{{it.tx}}
 				if pend := r.Pool.BuildBlockTransactions(); len(pend) > 0 {
 					bodies = append(bodies, append(append([]*types.Transaction{}, pend...), it.tx))
+				}
+				// ... and behind a fresh transaction that takes the body over the block's gas cap (from upgrade 10 on one
+				// transaction may cross it): what follows the crossing transaction is part of the body all the same
+				if r.Cfg.Consensus.EnableUpgrade11 {
+					cs, err := r.AppState.ForCheck(r.Head().Height())
+					if err != nil {
+						t.Fatalf("ForCheck: %v", err)
+					}
+					god := s.State.GodAddress()
+					if w.ByAddr[god] != nil {
+						ge := s.State.Epoch()
+						gn := s.State.GetNonce(god) + 1
+						if s.State.GetEpoch(god) < ge {
+							gn = 1
+						}
+						// two invitations of the god address (no fee is charged for them whatever their size), each below the
+						// cap, together above it: the second one is the crossing transaction
+						half := int(types.MaxBlockSize(true)/10)/2 + rapid.IntRange(1000, 100000).Draw(t, "overHalfTheCap")
+						var fats []*types.Transaction
+						minFee := feepkg.GetFeePerGasForNetwork(cs.ValidatorsCache.NetworkSize())
+						ok := sender != god
+						for i := 0; i < 2 && ok; i++ {
+							to := common.Address{0xfa, 0x7c, byte(i), byte(r.Head().Height()), byte(gn)}
+							fat := &types.Transaction{Type: types.InviteTx, AccountNonce: gn + uint32(i), Epoch: ge, To: &to, Payload: make([]byte, half)}
+							signed, err := types.SignTx(fat, w.ByAddr[god].Key)
+							if err != nil {
+								ok = false
+								break
+							}
+							if i == 0 {
+								if verr := validation.ValidateTx(cs, signed, minFee, validation.InBlockTx); verr != nil {
+									evid.Count("replay.gas_cap_body_not_buildable." + verr.Error())
+									ok = false
+								}
+							}
+							fats = append(fats, signed)
+						}
+						if ok {
+							bodies = append(bodies, append(fats, it.tx))
+							evid.Count("replay.behind_a_tx_that_crosses_the_gas_cap")
+						} else {
+							evid.Count("replay.gas_cap_body_not_buildable")
+						}
+					}
 				}
 				for _, body := range bodies {
 					cs, err := r.AppState.ForCheck(r.Head().Height())
